@@ -518,6 +518,8 @@ enum CollectorState {
     InDataset,
     /// The collector has read the pixel data element header.
     InPixelData,
+    /// The collector has handed out the last pixel data fragment.
+    AfterPixelData,
 }
 
 impl<S, D, R> fmt::Debug for DicomCollector<S, D, R>
@@ -864,6 +866,12 @@ where
     /// use [`read_basic_offset_table`](Self::read_basic_offset_table)
     /// before reading any fragment.
     pub fn read_next_fragment(&mut self, to: &mut Vec<u8>) -> Result<Option<u32>> {
+        if self.state == CollectorState::AfterPixelData {
+            // no more fragments:
+            // what follows the pixel data is not pixel data
+            return Ok(None);
+        }
+
         if self.state == CollectorState::Start || self.state == CollectorState::Preamble {
             // read file meta information group
             self.read_file_meta()?;
@@ -925,6 +933,8 @@ where
                     debug_assert!(header.length().is_defined());
                     let len = header.length().0;
                     decoder.read_to_vec(len, to).context(ReadItemSnafu)?;
+                    // the value is the one and only fragment
+                    self.state = CollectorState::AfterPixelData;
                     return Ok(Some(len));
                 }
                 // fragment item data
@@ -935,6 +945,12 @@ where
                 // empty item
                 // (must be accounted for even though it yields no value token)
                 LazyDataToken::ItemStart { len: Length(0) } => return Ok(Some(0)),
+                // end of the pixel data:
+                // do not run into the elements which follow it
+                LazyDataToken::SequenceEnd => {
+                    self.state = CollectorState::AfterPixelData;
+                    return Ok(None);
+                }
                 _ => {
                     // no-op
                 }
@@ -956,7 +972,8 @@ where
     /// Returns an error if the collector has alread read too far
     /// to obtain the basic offset table.
     pub fn read_basic_offset_table(&mut self, to: &mut Vec<u32>) -> Result<Option<u32>> {
-        if self.state == CollectorState::InPixelData {
+        if self.state == CollectorState::InPixelData || self.state == CollectorState::AfterPixelData
+        {
             return IllegalStateInPixelSnafu.fail().map_err(From::from);
         }
 
